@@ -3,6 +3,8 @@
 # change applied, and writes seeded/RESULTS.md. (tools/seedcheck.sh is the full confirmation protocol.)
 # Properties are processed in parallel (VERIF_SEEDALL_JOBS, default 4); the seeds of one property run one
 # after the other because they share that property's test binary.
+# VERIF_SEEDALL_ARGS (e.g. "--seed 2") is passed to every check, VERIF_SEEDALL_OUT names another result file:
+# the table in DESIGN.md is the run at seed 1, runs at other seeds show which detections depend on the case stream.
 cd /verif
 jobs=${VERIF_SEEDALL_JOBS:-4}
 tmp=$(mktemp -d /tmp/verif-seedall-XXXXXX)
@@ -13,7 +15,7 @@ one_prop() {
     [ -d "$d" ] || continue
     name=$(basename $d)
     p=$d/patch.diff; [ -f $d/patch-rebased-on-hooks.diff ] && p=$d/patch-rebased-on-hooks.diff
-    res=$(tools/mut.sh $p $id 2>&1)
+    res=$(tools/mut.sh $p $id ${VERIF_SEEDALL_ARGS:-} 2>&1)
     sig=$(echo "$res" | grep -m1 -o "sub=[^ ]* sig=[^ ]*")
     if echo "$res" | grep -q "^VIOLATION"; then caught=yes; else caught=NO; fi
     note=$(python3 -c "import json;print(json.load(open('$d/meta.json')).get('verif_note',''))" 2>/dev/null)
@@ -23,7 +25,7 @@ one_prop() {
 }
 export -f one_prop
 for i in $(seq -w 1 20); do echo C$i; done | xargs -P $jobs -I{} bash -c "one_prop {} $tmp"
-out=seeded/RESULTS.md
+out=${VERIF_SEEDALL_OUT:-seeded/RESULTS.md}
 echo "| seeded change | property | caught | first signature | note |" > $out
 echo "|---|---|---|---|---|" >> $out
 for f in $(ls $tmp/*.row | sort); do cat $f >> $out; done
